@@ -1,10 +1,11 @@
 """C19 - control frames are acknowledged exactly once, in order, to their sender."""
-from vlib.mgen import CLOSE, CONNECT, DISCONNECT, OPEN, PUB, READY, SETNAME, STEP, SUB, Profile
+from vlib.mgen import CLOSE, CONNECT, DISCONNECT, FAULT, OPEN, PUB, READY, SETNAME, STEP, SUB, Profile
 from vlib.simcheck import SimCheck
 
 RULE = ("Hypothesis-generated histories (profile 'control': handshakes CONNECT / CONNECT_V2+CONNECT / CONNECT_V2 incl. refused "
         "ones, SUBSCRIBE/UNSUBSCRIBE/PAUSE/RESUME incl. repeats and no-ops and individual requests while subscribed to all, data "
-        "frames, MODULE_READY, CLIENT_SET_NAME, DISCONNECT, 0-3 logger modules, generated service order). After every manager "
+        "frames, MODULE_READY, CLIENT_SET_NAME, DISCONNECT, 0-3 logger modules, generated service order; a second profile adds loggers and "
+        "requesters whose connection fails when the ACK or its copy is written). After every manager "
         "round, per connection: the ACKNOWLEDGE frames received (type 2, source 0, no payload) are exactly one per ack-worthy "
         "frame of that connection processed in that round, addressed to the module's id, none for anything else; every logger's "
         "sequence of ACK copies equals the processing order of acknowledged requests since it became a logger (its own requests "
@@ -18,6 +19,19 @@ CONTROL = Profile(
     p_logger=3,
     clash_ids=True,
     max_conns=7,
+)
+
+
+# the same accounting while writes of ACKs / ACK copies fail (a logger or a requester that is already gone:
+# EPIPE / ECONNRESET / first write succeeds): the remaining loggers must still get their copy
+CONTROL_FAULTS = Profile(
+    name="control-faults",
+    oracles={"ack", "framing"},
+    weights={STEP: 10, SUB: 16, PUB: 3, CONNECT: 6, OPEN: 3, DISCONNECT: 2, CLOSE: 6, READY: 1, SETNAME: 1},
+    p_logger=2,
+    close_modes=["epipe", "reset", "first-ok", "silent"],
+    dts=[0.0],
+    max_conns=8,
 )
 
 
@@ -41,9 +55,10 @@ def extra(ctx):
 
 
 CHECK = SimCheck(
-    "C19", [CONTROL],
-    [{"timecode": False, "timing": True, "log": "error"}, {"timecode": True, "timing": False, "log": "silent"},
-     {"timecode": False, "timing": True, "log": "info"}],
+    "C19", [CONTROL, CONTROL, CONTROL_FAULTS],
+    {"control": [{"timecode": False, "timing": True, "log": "error"}, {"timecode": True, "timing": False, "log": "silent"},
+                 {"timecode": False, "timing": True, "log": "info"}],
+     "control-faults": [{"timecode": False, "timing": True, "log": "silent"}, {"timecode": True, "timing": False, "log": "silent"}]},
     RULE, ["because one frame per connection is served per round, checking ACK counts after every round pins the order of acknowledgements on each connection"],
     quick=(900, 60), thorough=(20000, 150), nontrivial=nontrivial, extra=extra,
 )
